@@ -34,16 +34,18 @@ type Config struct {
 	Known         map[string]bool
 	Prefix        []Decision // concrete/replay mode: scheduler and choice decisions
 	WallBudget    time.Duration
+	FallbackMs    int
 }
 
 func DefaultConfig() Config {
 	return Config{Solver: "z3", TimeoutMs: 10000, MaxDecisions: 4000, MaxInstrs: 20_000_000, MaxFork: 64, MaxSymArray: 1100,
-		MaxAlloc: 4096, MaxThreads: 8, PreemptBound: -1, Unwind: 256, MaxPaths: 200000, MaxViolations: 3, Workers: 8}
+		MaxAlloc: 4096, MaxThreads: 8, PreemptBound: -1, Unwind: 256, MaxPaths: 200000, MaxViolations: 3, Workers: 8, FallbackMs: 60000}
 }
 
 type WorkItem struct {
-	Prefix []Decision
-	Model  Model
+	Prefix    []Decision
+	Model     Model
+	Uncertain bool
 }
 
 type Violation struct {
@@ -131,6 +133,8 @@ type Explorer struct {
 	typeMemo map[string]types.Type
 	funcMemo map[string]*ssa.Function
 	sampleQ  []string
+	dumpN    int
+	fbSat, fbUnsat, fbUnknown int
 	start    time.Time
 }
 
@@ -221,6 +225,19 @@ func (ex *Explorer) noteAssertQuery(pc []*Term, c *Term) {
 	ex.mu.Lock()
 	if len(ex.sampleQ) < 3 {
 		ex.sampleQ = append(ex.sampleQ, fmt.Sprintf("pc(%d conjuncts) => %s", len(pc), c.str(3)))
+	}
+	ex.mu.Unlock()
+}
+
+func (ex *Explorer) noteFallback(r Result) {
+	ex.mu.Lock()
+	switch r {
+	case Sat:
+		ex.fbSat++
+	case Unsat:
+		ex.fbUnsat++
+	default:
+		ex.fbUnknown++
 	}
 	ex.mu.Unlock()
 }
@@ -410,6 +427,7 @@ func (in *Interp) runPath(fn *ssa.Function, it *WorkItem) *PathResult {
 	in.unwind = in.ex.cfg.Unwind
 	in.mapOrderAll = false
 	in.knownActive = ""
+	in.uncertain = it.Uncertain
 	in.pathStubs = map[string]value{}
 	in.res = &PathResult{Reached: map[string]map[string]string{}}
 	in.sch = newSched(in)
